@@ -229,7 +229,7 @@ def run_ego_layout(ck, ego, lay, tag):
         elif e["k"] == "f":
             inside = e["p"].startswith(lay["real_root"] + "/")
             with open(e["p"], "w") as f:
-                f.write('{"k": "%s"}' % ("inside" if inside else secret))
+                f.write(('{"k": "%s"}' % ("inside" if inside else secret)).ljust(10 if inside else 3571))
         else:
             os.symlink(e["t"], e["p"])
     leak_name = "leakname%s" % secret[6:]
@@ -259,7 +259,7 @@ def run_ego_layout(ck, ego, lay, tag):
     for line in out.split("\n"):
         if line.startswith("#P") or line.startswith("#M"):
             cur_p = int(line.split()[1])
-        elif line.startswith("@") and (secret in line or leak_name in line):
+        elif line.startswith("@") and (secret in line or leak_name in line or "Size: 3571" in line):
             fn = line.split()[0][1:]
             leaks.setdefault(fn, lay["paths"][cur_p])
     for fn, p in leaks.items():
@@ -351,8 +351,6 @@ def run(ck):
     coq_ok = ck.coq_stage(GROUP, theorems=["C26_lexical", "C26_resolved", "C26_old_refuted"])
     found_escape = False
 
-    import time
-    ck.notes.append('t_coq=%.1f' % (time.time() - ck.t0))
     # ---------------------------------------------------------------- T: call-site obligation
     sites = scan_sites()
     ck.cov["call_sites"] = {"total": len(sites), "unrouted": [s for s, r, _ in sites if not r]}
@@ -366,14 +364,12 @@ def run(ck):
     ck.add_obligations(1, 1 if rc_ob == 0 else 0)
     unrouted = [(s, w) for s, r, w in sites if not r]
 
-    ck.notes.append('t_sites=%.1f' % (time.time() - ck.t0))
     # ---------------------------------------------------------------- harness: real SandboxJoin
     ok, binp = vf.go_test_build(ck.work, "internal/util", {"internal/util/zz_verif_c26_test.go":
                                 os.path.join(vf.HARNESS, "C26", "c26_test.go")}, "c26.test")
     if not ok:
         ck.violation("harness-build", "harness for internal/util does not build:\n" + binp[-1500:], replay={"log": binp[-3000:]}, found_input=False)
         return
-    ck.notes.append('t_hbuild=%.1f' % (time.time() - ck.t0))
     base = os.path.realpath(os.path.join(ck.work, "fs"))
     os.makedirs(base, exist_ok=True)
     nx = "nx-c26-%d" % ck.rng.randint(1000, 9999)
@@ -437,8 +433,6 @@ def run(ck):
     for p, o in list(zip(lays[0]["paths"], res["layouts"][0]))[20:23]:
         ck.sample({"layout": 0, "path": p, "result": bytes.fromhex(o["r"]).decode("utf8", "replace"), "how": o["how"]})
 
-    import time
-    ck.notes.append('t_before_corr=%.1f' % (time.time() - ck.t0))
     # ---------------------------------------------------------------- correspondence with the model
     if coq_ok:
         L = ["From Sandbox Require Import Model.", "Open Scope N_scope.",
@@ -494,8 +488,6 @@ Definition lawbad%d (i : nat) (c : str * str * option str) : list nat :=
                                 bytes.fromhex(o["t"]).decode("utf8", "replace") if o["t"] else None),
                                 replay={"layout": dict(l, paths=[l["paths"][i]]), "path": l["paths"][i]}, found_input=False)
 
-    import time
-    ck.notes.append('t_before_ego=%.1f' % (time.time() - ck.t0))
     # ---------------------------------------------------------------- the real binary under the sandbox
     okb, ego = vf.build_ego()
     if not okb:
